@@ -198,12 +198,12 @@ class RealRun(Harness):
     BAD = ['refused', 'unresolvable', 'silent', 'early-close', 'bad-block-size', 'truncated-kexinit', 'garbage-kexinit', 'probe-garbage', 'type-byte-only-kexinit', 'probe-type-byte-only',
            'ssh1-fallback', 'unresolvable-idna']
 
-    def __init__(self, bad, pos, json, verbose=False):
-        self.bad, self.pos, self.json, self.verbose = bad, pos, json, verbose
-        self.name = 'realrun-%s-at%d-%s%s' % (bad, pos, 'json' if json else 'text', '-v' if verbose else '')
+    def __init__(self, bad, pos, json, verbose=False, colors=False):
+        self.bad, self.pos, self.json, self.verbose, self.colors = bad, pos, json, verbose, colors
+        self.name = 'realrun-%s-at%d-%s%s%s' % (bad, pos, 'json' if json else 'text', '-v' if verbose else '', '-colors' if colors else '')
 
     def params(self):
-        return {'bad': self.bad, 'pos': self.pos, 'json': self.json, 'verbose': self.verbose}
+        return {'bad': self.bad, 'pos': self.pos, 'json': self.json, 'verbose': self.verbose, 'colors': self.colors}
 
     def inputs(self):
         x = zx.fresh_bytes('x', 1)
@@ -269,7 +269,7 @@ class RealRun(Harness):
         aconf.json = self.json
         aconf.verbose = self.verbose          # -v: status lines must stay out of a JSON run's stdout, in main() and in every worker
         aconf.skip_rate_test = True
-        aconf.colors = False
+        aconf.colors = self.colors           # colours on (the default on a terminal): a JSON document must not carry terminal colour codes
         aconf.target_list = list(hosts)
         aconf.threads = 1
         cap = []
@@ -297,7 +297,7 @@ class RealRun(Harness):
             except ValueError:
                 js = jt = False
         return {'ret': r, 'json_ok': js, 'json_targets': jt, 'seps': text.count('-' * 80 + '\n'), 'good': 'good' in text or '"target": "good' in text,
-                'bad': ('bad' in text), 'leaked': buf.getvalue() != '', 'traceback': 'Traceback (most recent call last)' in text}
+                'bad': ('bad' in text), 'leaked': buf.getvalue() != '', 'traceback': 'Traceback (most recent call last)' in text, 'ansi': '\x1b[' in text or '\\u001b' in text}
 
     def check(self, inp, obs):
         r = obs['ret']
@@ -307,6 +307,7 @@ class RealRun(Harness):
         if self.json:
             yield 'stdout-is-one-json-array-with-one-element-per-target', obs['json_ok'] is True
             yield 'each-json-element-names-its-target', obs['json_targets'] is True
+            yield 'no-terminal-colour-codes-in-json', not obs['ansi']
         else:
             yield 'two-result-blocks', obs['seps'] == 1 and obs['good']
             yield 'each-block-names-its-target', obs['good'] and obs['bad']
@@ -361,6 +362,7 @@ def tasks(tier):
     for bad in ('refused', 'early-close', 'probe-garbage'):
         T.append(RealRun(bad, 1, True, verbose=True))      # (in text mode -v status lines between the blocks are intended)
         T.append(RealRun(bad, 0, True, verbose=True))
+        T.append(RealRun(bad, 1, True, colors=True))
     return T
 
 
@@ -372,7 +374,7 @@ def harness_by_name(name, params):
     if k == 'containment':
         return Containment(p['esc'])
     if k == 'realrun':
-        return RealRun(p['bad'], p['pos'], p['json'], p.get('verbose', False))
+        return RealRun(p['bad'], p['pos'], p['json'], p.get('verbose', False), p.get('colors', False))
     raise KeyError(name)
 
 
